@@ -663,6 +663,16 @@ func (p *Parser) parseInfixExpression(left ast.Expression) ast.Expression {
 	// hack
 	if expression.Operator == "." {
 
+		// What follows the dot is a key, written as a name, a
+		// number or a string: we keep its text and nothing else,
+		// so nothing else may stand there.
+		switch expression.Right.(type) {
+		case nil, *ast.Identifier, *ast.IntegerLiteral, *ast.FloatLiteral, *ast.StringLiteral:
+		default:
+			msg := fmt.Sprintf("expected a name after . but got %s around %s", expression.Right.String(), p.curToken.Position())
+			p.errors = append(p.errors, msg)
+			return nil
+		}
 		if expression.Right != nil && expression.Right.String() != "" {
 			name := expression.Right.String()
 			expression.Right = &ast.StringLiteral{Token: token.Token{Type: token.STRING, Literal: name}, Value: name}
